@@ -62,6 +62,12 @@ func (c *FnCtx) callWrites(cc *ssa.CallCommon) []string {
 	if pureLibs[name] {
 		return nil
 	}
+	if name == "dynamic call" {
+		sig := cc.Signature()
+		if sig.Params().Len() == 1 && sig.Results().Len() == 1 && isInteger(sig.Params().At(0).Type()) && isBoolType(sig.Results().At(0).Type()) {
+			return nil // rune predicates are assumed pure
+		}
+	}
 	return []string{""}
 }
 
@@ -107,6 +113,16 @@ func (c *FnCtx) execCall(st *State, in ssa.Instruction, cc *ssa.CallCommon) Val 
 	}
 	if fc := c.eng.contractFor(name); fc != nil {
 		return c.callContract(st, in, cc, name, fc, args, resT)
+	}
+	// call of a function value: predicates over runes are modelled as an uninterpreted application
+	if name == "dynamic call" {
+		sig := cc.Signature()
+		if sig.Params().Len() == 1 && sig.Results().Len() == 1 && isInteger(sig.Params().At(0).Type()) && isBoolType(sig.Results().At(0).Type()) {
+			fv := flatten(c.val(st, cc.Value))
+			c.eng.needApplyRB = true
+			c.assumptions["function values of type func(rune) bool are pure (no side effects)"] = true
+			return VBool{app("applyRB", fv[0], args[0].(VInt).T)}
+		}
 	}
 	// local closure called in place
 	if pureLibs[name] {
@@ -228,6 +244,12 @@ func (c *FnCtx) callContract(st *State, in ssa.Instruction, cc *ssa.CallCommon, 
 	for _, cl := range fc.Clauses {
 		if cl.Kind == "ensures" {
 			c.assume(st, env.evalBool(cl.E))
+		}
+	}
+	if fc.Applies != "" && len(args) == 1 {
+		if rb, ok := res.(VBool); ok {
+			env.vars["arg$0"] = args[0]
+			c.assume(st, eq(rb.T, env.evalBool(ECall{Fn: fc.Applies, Args: []Expr{EIdent{"arg$0"}}})))
 		}
 	}
 	if fc.Trusted {
@@ -459,6 +481,16 @@ func (e *Engine) ghostCall(env *Env, x ECall) (Val, bool) {
 			e.needVarint = true
 			return VInt{app("varintval", s.Arr, s.Off, env.evalInt(x.Args[1]))}, true
 		}
+	case "apply": // apply(f, r): the function value f applied to rune r
+		fv := flatten(env.eval(x.Args[0]))
+		e.needApplyRB = true
+		return VBool{app("applyRB", fv[0], env.evalInt(x.Args[1]))}, true
+	case "ULetter":
+		e.needUnicode = true
+		return VBool{app("ULetter", env.evalInt(x.Args[0]))}, true
+	case "UNumber":
+		e.needUnicode = true
+		return VBool{app("UNumber", env.evalInt(x.Args[0]))}, true
 	case "wrcalls": // number of Write calls made on w
 		id := readerID(env.eval(x.Args[0]))
 		return VInt{sel(c.heapGet(env.st, "G$wr.calls", arrSort(sInt)), id)}, true
@@ -472,10 +504,13 @@ func (e *Engine) ghostCall(env *Env, x ECall) (Val, bool) {
 			}
 			return VBool{eq(iv.Typ, fmt.Sprint(e.typeID(t)))}, true
 		}
-	case "raw": // the whole backing array of a byte slice, indexed absolutely
-		if s, ok := env.eval(x.Args[0]).(VSlice); ok {
+	case "raw": // the whole backing array of a byte slice or string, indexed absolutely
+		switch s := env.eval(x.Args[0]).(type) {
+		case VSlice:
 			m := c.heapGet(env.st, "E$uint8", mapSort(2, sInt))
 			return VStr{sel(m, s.Base), "0", "0"}, true
+		case VStr:
+			return VStr{s.Arr, "0", "0"}, true
 		}
 	case "str": // view a byte slice as a string value (snapshot)
 		if s, ok := env.eval(x.Args[0]).(VSlice); ok {
@@ -553,6 +588,11 @@ func (e *Engine) recApp(env *Env, sf *SpecFunc, args []Val) Val {
 		c.assert(eq(term, bt))
 	}
 	return res
+}
+
+func isBoolType(t types.Type) bool {
+	b, ok := t.Underlying().(*types.Basic)
+	return ok && b.Info()&types.IsBoolean != 0
 }
 
 func atoiSafe(s string) (int, bool) {
